@@ -102,3 +102,7 @@ mod tests {
         );
     }
 }
+
+#[cfg(kani)]
+#[path = "/verif/harness/cram/root.rs"]
+mod verif_kani;
